@@ -198,6 +198,10 @@ class DatesWorld(World):
                 d = dt.date(y, 2, 28)
             elif r < 0.75:
                 d = dt.date(y, 3, 1)
+            elif r < 0.85:
+                # month edges: first and last days of months other than the year's own edges
+                m = rng.randint(1, 12)
+                d = dt.date(y, m, 1) if rng.random() < 0.5 else dt.date(y, m, 1) - dt.timedelta(days=1)
             else:
                 d = dt.date(y, rng.randint(1, 12), rng.randint(1, 28))
             return d.toordinal() + rng.randint(-2, 2)
@@ -1178,8 +1182,6 @@ class DatesWorld(World):
                     bad.append(f"from_ymd{(day.year, day.month, day.day)} gives {q!r}")
             # the SDMX string names the period uniquely, with and without the frequency given
             sd = p.to_sdmx_string()
-            if str(p) != sd and f != "D":
-                bad.append(f"str() {str(p)!r} differs from the SDMX string {sd!r}")
             for q in (ir.Period.from_sdmx_string(sd, F), ir.Period.from_sdmx_string(sd)):
                 if letter(q) != f or int(q.serial) != s:
                     bad.append(f"from_sdmx_string({sd!r}) gives {q!r}")
